@@ -38,7 +38,8 @@ from harness import c09
 
 from insights.client.config import InsightsConfig
 from insights.cleaner import Cleaner
-from insights.core import dr, filters as core_filters
+from insights.core import dr, filters as core_filters, Parser
+from insights.core.plugins import parser
 from insights.core.context import HostContext
 from insights.core.exceptions import ContentException
 from insights.core.spec_factory import DatasourceProvider, RegistryPoint, SpecSet, simple_file, glob_file, simple_command
@@ -137,12 +138,15 @@ def run_glue(case, tmp):
     else:
         impl = simple_command("/bin/cat %s" % os.path.join(d, case["files"][0]["name"]), context=HostContext)
     I = type("I" + tag, (S,), {"p": impl})
-    for pats, mx in case["filters"]:
-        core_filters.add_filter(S.p, pats if len(pats) > 1 else pats[0], mx)
+    P = parser(S.p)(type("P" + tag, (Parser,), {"parse_content": lambda self, content: None}))
+    for target, form, pats, mx in case["filters"]:
+        arg = pats[0] if form == "str" else set(pats) if form == "set" else list(pats)
+        core_filters.add_filter({"spec": S.p, "parser": P, "impl": I.p}[target], arg, mx)
     conf, rm = mk_conf(cfg), mk_rm(cfg)
 
     def state():
         return {"filters": core_filters.get_filters(I.p, True), "registered": dict(core_filters.FILTERS[S.p]),
+                "registered-impl": dict(core_filters.FILTERS[I.p]),
                 "config": dict(vars(conf)), "rm_conf": rm, "no_obfuscate": noobf}
     before = copy.deepcopy(state())
     order = list(before["filters"].keys())
@@ -461,8 +465,8 @@ FILTER_KEYS = ["link", "mtu", "inet", "up", "10.", "host", "db", "@1@", ":"]
 
 
 def competing(case):
-    """a line that contains two registered patterns: which budget it uses up depends on the order of the filters dict"""
-    keys = set(k for pats, _ in case["filters"] for k in pats)
+    """a line that contains two registered patterns: the ORDER of the filters dict decides which budget it uses up"""
+    keys = set(k for _, _, pats, _ in case["filters"] for k in pats)
     return any(sum(1 for k in keys if k in l) > 1 for f in case["files"] for l in f["lines"])
 
 
@@ -473,38 +477,56 @@ def gen_glue(rng, i):
            "mac": 1, "keywords": rng.choice([None, ["Zorg"], ["link", "secret"]]), "patterns": rng.choice([[], [], ["DROP"]])}
     spec = rng.choice(["file", "file", "glob", "glob", "cmd"])
     nfiles = rng.choice([2, 3]) if spec == "glob" else 1
+    contest = rng.random() < 0.6          # 2-4 patterns competing for the lines, budgets 1-2
+    keys = rng.sample(FILTER_KEYS, rng.choice([2, 3, 4]) if contest else rng.choice([1, 1, 2, 3]))
     words = ["link", "mtu", "inet", "up", "10.1.2.%d" % rng.randrange(9), "db.%s" % dom, "www.db.%s" % dom, "host", "DROP",
              "aa:bb:cc:dd:ee:%02x" % rng.randrange(256), "1.2.3.4", "9.9.9.9", "plain", "Zorg", "srv9"]
+    if contest:
+        words = words + [k for k in keys if "@" not in k] * 3
     files = []
     for n in range(nfiles):
         lines = []
         for j in range(rng.choice([3, 4, 6, 8])):
-            lines.append("@%d@ %s" % (j, " ".join(rng.sample(words, rng.choice([1, 2, 2, 3])))))
+            lines.append("@%d@ %s" % (j, " ".join(rng.sample(words, rng.choice([1, 2, 2, 3, 4])))))
         files.append({"name": ("sub/f%d.txt" % n) if spec == "glob" else "f0", "lines": lines})
-    keys = rng.sample(FILTER_KEYS, rng.choice([1, 1, 2, 3]))
+    budget = (lambda: rng.choice([1, 1, 2])) if contest else (lambda: rng.choice([1, 1, 2, 3]))
+    target = lambda: rng.choice(["spec", "spec", "parser", "impl"])
     filters = []
-    if len(keys) > 1 and rng.random() < 0.5:
-        filters.append([keys, rng.choice([1, 2, 3])])                 # one add_filter call with a list
+    k = rng.random()
+    if len(keys) > 1 and k < 0.35:
+        filters.append([target(), "list", list(keys), budget()])              # one call with a list
+    elif len(keys) > 1 and k < 0.55:
+        filters.append([target(), "set", list(keys), budget()])               # one call with a set: taken in sorted order
     else:
-        for k in keys:
-            filters.append([[k], rng.choice([1, 1, 2, 3])])           # separate calls, separate budgets
+        for key in keys:
+            filters.append([target(), "str", [key], budget()])                # separate calls, separate budgets
+    if rng.random() < 0.35:
+        filters.append([target(), rng.choice(["str", "list"]), [rng.choice(keys)], rng.choice([2, 3, 4])])   # again, larger budget
     if rng.random() < 0.2:
-        filters.append([[keys[0]], rng.choice([1, 2, 3])])            # the same pattern again: the larger budget wins
-    case = {"id": i, "kind": "glue", "cfg": cfg, "spec": spec, "files": files, "filters": filters,
+        filters.append([target(), "list", rng.sample(FILTER_KEYS, 2), budget()])
+    return {"id": i, "kind": "glue", "cfg": cfg, "spec": spec, "files": files, "filters": filters,
             "no_obfuscate": rng.sample(ALL_OBF, rng.randrange(1, 3)) if rng.random() < 0.2 else [],
             "no_redact": 1 if rng.random() < 0.2 else 0, "collections": 2}
-    if competing(case) and rng.random() < 0.8:
-        case["filters"] = [[[keys[0]], filters[0][1]]]
-    return case
 
 
 def glue_allow(case):
-    """the filters dict the glue hands to clean_content: per pattern the largest max_match, here in sorted order"""
-    al = {}
-    for pats, mx in case["filters"]:
-        for k in pats:
-            al[k] = max(al.get(k, 0), mx)
-    return dict(sorted(al.items()))
+    """the filters dict the glue hands to clean_content, in ITS order (core/filters.py add_filter, get_filters):
+    a component's filters keep the order of registration (a list / str in the order given, a set sorted; a pattern that is
+    registered again keeps its place and gets the larger budget); a parser's filters go to the registry point; the
+    implementation's filters come first, then the registry point's are merged in by dict.update (a pattern present on both
+    keeps its place among the implementation's but takes the registry point's budget)"""
+    reg = {"impl": {}, "spec": {}}
+    for target, form, pats, mx in case["filters"]:
+        d = reg["impl" if target == "impl" else "spec"]
+        seq, seen = (sorted(set(pats)) if form == "set" else pats), set()
+        for k in seq:
+            if k in seen:
+                continue
+            seen.add(k)
+            d[k] = max(d[k], mx) if k in d else mx
+    al = dict(reg["impl"])
+    al.update(reg["spec"])
+    return al
 
 
 def model_lines(case):
@@ -691,9 +713,7 @@ def order_violation(case, res):
 
 
 def finding_of(case):
-    """listed finding a failure on this case is an instance of — decided on the INPUT alone"""
-    if case["kind"] == "glue" and competing(case):
-        return "filter-order-hash-seed"
+    """listed finding a failure on this case is an instance of — decided on the INPUT alone (none is listed for C10)"""
     return None
 
 
@@ -771,15 +791,17 @@ def run(chk):
                 "IPv4, IPv6, MAC, up to 5 keywords) so that several are NEW at once and numbering depends on the order they are taken; "
                 "outputs AND all mappings after every call are compared; the history is repeated 2-3 times in fresh Cleaners built from "
                 "the same config, rm_conf, allow-list dict (budgets 1-3) and content list objects. glue (15%): RegistryPoint(filterable) "
-                "+ simple_file / glob_file (2-3 files) / simple_command, filters through add_filter(max_match 1-3), collected twice in "
+                "+ simple_file / glob_file (2-3 files) / simple_command; in 60% 2-4 patterns compete for the lines with budgets 1-2; "
+                "filters through add_filter on the registry point, on a parser of it or on the implementation, as str / list / set, "
+                "re-registration with a larger budget; collected twice in "
                 "one process, every provider written through write(). Every case runs under each PYTHONHASHSEED; non-trivial = at least "
                 "two obfuscators enabled and a non-blank line, case not seen before")
     chk.assumptions = c09_assumptions() + [
         "determinism across hash seeds is not a theorem about a Lean function: it is established by every child interpreter's "
         "outputs and mappings being equal to the model's single answer (numbering: theorems ip_/host_numbering_first_occurrence)",
         "the `grep -F` pre-filter of the glue path is stated by the harness (lines containing a pattern), its tie is C07's",
-        "glue cases in which one line contains two registered patterns are not compared with the model: there the order of the "
-        "filters dict decides which budget is used up and that order is hash dependent (known finding filter-order-hash-seed)",
+        "the order of the filters dict a provider hands to clean_content is stated by the harness from core/filters.py "
+        "(registration order, set arguments sorted, implementation before registry point) and checked by the comparison",
         "Keyword.mapping() is read from a set: compared sorted",
     ]
     chk.lean()
@@ -831,7 +853,9 @@ def run(chk):
             chk.count("echo:substitutes-in-content", sum(1 for l in r0["c2"] if "copied" in l or "seen" in l))
         elif c["kind"] == "glue":
             chk.count("glue:" + c["spec"])
-            chk.count("glue:competing" if fid else "glue:non-competing")
+            chk.count("glue:competing" if competing(c) else "glue:non-competing")
+            for t, form, _, _ in c["filters"]:
+                chk.count("glue:add_filter(%s,%s)" % (t, form))
             for r in r0["stored"]:
                 chk.count("glue:write=" + (r["write"] if isinstance(r, dict) else "exc"))
         elif c["kind"] == "clean":
